@@ -627,6 +627,11 @@ func (se *SessionExecutor) handleFieldList(reqCtx *util.RequestContext, data []b
 	reqCtx.SetFromSlave(se.GetNamespace().IsRWSplit(se.user) || se.userPriv == models.ReadOnly)
 
 	index := bytes.IndexByte(data, 0x00)
+	if index < 0 {
+		// COM_FIELD_LIST carries a NUL-terminated table name; without the
+		// terminator data[0:index] would be sliced with index -1
+		return nil, mysql.ErrMalformPacket
+	}
 	table := string(data[0:index])
 	wildcard := string(data[index+1:])
 
